@@ -44,10 +44,18 @@ pub fn run_exchanges(cfgs: Vec<Arc<ExchCfg>>, lim: &Limits, require_single_outco
         .map(|(i, cfg)| {
             let mut rep = Report::new();
             let _g = crate::engine::watch(|| format!("{} exchange #{}: {}", cfg.prop, i, describe(cfg)));
-            let init = match Exch::new(cfg.clone()) {
-                Ok(x) => x,
-                Err(e) => {
-                    rep.violation(Violation { key: format!("{}:harness:init", cfg.prop), ord: i as u64, what: e, replay: json!({"exchange": describe(cfg)}) });
+            let init = match crate::engine::guarded(|| Exch::new_k(cfg.clone())) {
+                Ok(Ok(x)) => x,
+                Ok(Err((key, what))) => {
+                    // an oracle of this property failing on the canonical way to the start state is a violation;
+                    // anything else means the scene cannot be set (undecided)
+                    let base = key.strip_prefix(&format!("{}:", cfg.prop)).unwrap_or(&key).to_string();
+                    let in_scope = !base.starts_with("harness") && (base.starts_with("panic:") || (cfg.scope)(&base));
+                    rep.violation(Violation { key: if in_scope { key.clone() } else { format!("{}:harness:init", cfg.prop) }, ord: i as u64, what: format!("on the canonical schedule to the start state: [{}] {}", key, what), replay: json!({"exchange": describe(cfg), "cfg_index": i, "trace": []}) });
+                    return rep;
+                }
+                Err(p) => {
+                    rep.violation(Violation { key: format!("panic:{}", crate::engine::panic_site(&p)), ord: i as u64, what: format!("on the canonical schedule to the start state: {}", p), replay: json!({"exchange": describe(cfg), "cfg_index": i, "trace": []}) });
                     return rep;
                 }
             };
